@@ -432,6 +432,13 @@ def rule_r7(prog, res) -> None:
         raise AnalysisError(f"C15.R7: only {n} bin-edge factory methods found, minimum 3")
 
 
+def rule_r8(prog, res) -> None:
+    """bin edges and scales are recomputed from the configuration's own parameters: no result cache keyed by a projection"""
+    from .common import memo_rule
+
+    memo_rule(prog, res, "C15.R8", lambda f: f.module.name.startswith(("yaw.cosmology", "yaw.config", "yaw.binning")), "bin edges computed for one cosmology are returned for another")
+
+
 RULES = [
     ("C15.R1", rule_r1, QUICK),
     ("C15.R2", rule_r2, QUICK),
@@ -440,4 +447,5 @@ RULES = [
     ("C15.R5", rule_r5, QUICK),
     ("C15.R6", rule_r6, QUICK),
     ("C15.R7", rule_r7, QUICK),
+    ("C15.R8", rule_r8, QUICK),
 ]
